@@ -14,6 +14,25 @@ HARNESS = ("harness/cmd/vharness (Go, built against /repo's working tree with -t
 NOT_APPLICABLE = {}
 
 PROPS = {
+    "C03": {
+        "design_ref": "DESIGN.md section 6 (C03)",
+        "projection": "packet sequence and left-over byte counts after every chunk",
+        "mismatch_is_input": True,
+        "level_text": "Coq theorems over every decoder state reachable by any chunk history: (geometry) the result of a call is the same for every way the ring can split Peek(3); (segmentation) a call that reported need-more-data followed by more bytes behaves exactly like the call on all the bytes, and a call that produced a packet or an error produces the same with any later bytes behind it and leaves exactly those bytes; a completed frame consumes exactly its own bytes; the invariant these are stated under is preserved by every call and feed. The ring buffer itself is abstracted to its content (the third-party library is not verified); the tie runs the real Unpack on the real ring over frames x cuts (every single cut position, 1-byte chunks, random) x capacities x every start offset so each multi-byte field meets the wrap. The composition into one statement over whole chunk lists and the TCP connection level are covered by the differential run, not by a single theorem (partial).",
+        "level_note": "Trusted: kernel, extraction, harness; ring buffer library modelled by its content + adversarial Peek split; the connection-level clause (tcpConn.reading) is exercised over loopback TCP by the client harness (C13/C12 scenarios), not proved.",
+        "assumptions": ["ringbuffer v0.0.11 behaves as a byte queue (Length/Peek/Retrieve/Read/Write on the content)", "compress/gzip oracle"],
+        "modelled": "Header.Unpack (v1, v2), protocolV1/V2.Unpack, Context.SetHeader/GetHeader/EndUnpack, tcpConn.readPacket; ring buffer by content",
+    },
+    "C04": {
+        "design_ref": "DESIGN.md section 6 (C04)",
+        "projection": "verdict class (OK/ERR/PANIC), consumed counts, requested capacity",
+        "mismatch_is_input": True,
+        "timeout": {"quick": 1500, "thorough": 6000},
+        "level_text": "Totality theorems for every decoding entry point over all byte strings / all reachable streaming states / all ring splits: one-shot frame decode, streaming decode (plus: a step that reports a packet consumed >= 1 byte; its own allocations are bounded by the bytes already buffered), metadata block, handshake, gzip wrapper (requested capacity <= 1032*len(in)+512 whatever the size trailer says). In the model every index/slice is a checked primitive (Panic when out of range) and every loop runs on fuel, so '<> Panic' is 'never reads outside the input' and '<> OutOfFuel' is termination. Tie: hostile inputs (every truncation, every length field 0/max/+-1, metadata/body length swaps, bit flips, gzip trailers under/overstating) through all entry points with recover() verdicts compared to the model, TotalAlloc per call measured, huge-claim gzip cases in a child process under ulimit -v.",
+        "level_note": "Trusted: kernel, extraction, harness. Totality and allocation of compress/gzip, protobuf and encoding/json themselves are assumed (Packet.Err/Unmarshal are exercised on random bodies for panics only).",
+        "assumptions": ["compress/gzip, proto.Unmarshal, json.Unmarshal return or fail on every input and allocate within the format's expansion bound", "Go int is 64-bit"],
+        "modelled": "all decode entry points of go/v1, go/v2, go/metadata.go, go/protocol.go (Handshake.Unpack), go/gzip/gzip.go (Decompress sizing)",
+    },
     "C01": {
         "design_ref": "DESIGN.md section 6 (C01)",
         "projection": "decode(encode p) through both entry points, and the error verdict",
